@@ -294,13 +294,19 @@ def _pipeline_worker(args):
     rs = directive.RuntimeState()
     bad, known, n = [], {}, 0
     flagsets = (0, std.ELLIPSIS, std.NORMALIZE_WHITESPACE, std.ELLIPSIS | std.NORMALIZE_WHITESPACE)
+    reqs, stdv = [], []
     for w in wants:
         want = w + '\n' if w else ''
         for g in gots:
             got = g + '\n' if g else ''
             for fl in flagsets:
                 n += 1
-                if oc.check_output(want, got, fl) and not checker.check_output(got, want, rs):
+                sv = bool(oc.check_output(want, got, fl))
+                if (len(w) + len(g) + fl) % 7 == 0:
+                    # every seventh evaluation also goes to the model of the standard checker (Model/StdOutput.v)
+                    reqs.append(('std_check_output', bool(fl & std.ELLIPSIS), bool(fl & std.NORMALIZE_WHITESPACE), want, got))
+                    stdv.append(sv)
+                if sv and not checker.check_output(got, want, rs):
                     if (want, got) in (('1\n', 'True\n'), ('0\n', 'False\n')):
                         known['F6d'] = known.get('F6d', 0) + 1
                     elif (fl & std.ELLIPSIS) and '...' in want and _PREFIXED.search(got):
@@ -313,7 +319,11 @@ def _pipeline_worker(args):
                         known['F6i'] = known.get('F6i', 0) + 1
                     elif len(bad) < 5:
                         bad.append((want, got, fl))
-    return n, bad, known
+    corr = []
+    for r, sv, mv in zip(reqs, stdv, common.model_batch(reqs)):
+        if mv is not sv and len(corr) < 3:
+            corr.append((r[3], r[4], r[1], r[2], sv, repr(mv)))
+    return n, bad, known, (len(reqs), corr)
 
 
 def pipeline_compat(ctx):
@@ -327,8 +337,14 @@ def pipeline_compat(ctx):
     G = sorted({''.join(t) for n in range(0, 4) for t in it.product(gtoks, repeat=n)})
     jobs = [(W[i:i + 40], G) for i in range(0, len(W), 40)]
     total, seen = 0, {}
-    for n, bad, known in common.pmap(_pipeline_worker, jobs):
+    ncorr = 0
+    for n, bad, known, (nc, corr) in common.pmap(_pipeline_worker, jobs):
         total += n
+        ncorr += nc
+        for want, got, e, nw, sv, mv in corr:
+            if len([v for v in ctx.violations if v['kind'] == 'std-output-correspondence']) < 3:
+                ctx.violation('std-output-correspondence', {'what': 'doctest.OutputChecker().check_output(want, got, ELLIPSIS=%s NORMALIZE_WHITESPACE=%s) = %s, the model std_check_output says %s' % (e, nw, sv, mv),
+                              'want': want, 'got': got, 'e': e, 'n': nw, 'theorem_or_correspondence': 'correspondence std_check_output / CPython doctest.OutputChecker (feeds C20_std_output_accepted)'}, False)
         for k, v in known.items():
             seen[k] = seen.get(k, 0) + v
         for want, got, fl in bad:
@@ -337,6 +353,7 @@ def pipeline_compat(ctx):
                               'want': want, 'got': got, 'std_flags': fl, 'theorem_or_correspondence': 'C20 on checker.check_output (standard OutputChecker as oracle)'}, True)
     ctx.evaluations += total
     ctx.count('output_pairs_x_flags', total)
+    ctx.count('std_output_model_correspondence_evaluations', ncorr)
     for k, v in seen.items():
         ctx.count('output_pairs_in_known_class_' + k, v)
 
